@@ -1,4 +1,5 @@
 import Fpdec.Lemmas.Text
+import Fpdec.Kernels.Format
 import Fpdec.Props.C11_Sites
 
 /-!
@@ -31,5 +32,16 @@ theorem displaySpec_unfold (tm : Mode) (f : Std.FmtSpec) (a : Int) (p : Nat) (P 
 /-! ### non-vacuity -/
 example : display Profile.dev .floor { prec := some 2 } ⟨-1234567, 3⟩ = .ok [45, 49, 50, 51, 52, 46, 53, 55] := by
   decide   -- "-1234.57"
+
+/-! ### translated kernels
+The Lean definitions `Gen.K.*` are regenerated from the Rust source on every run by `tools/fpkernels.py` (expression-level
+translation; `format!` / `write!` placeholder by placeholder).  These theorems tie them to the hand-written model the property
+theorems above are about, and give the end-to-end statements about the *translated* functions. -/
+theorem kernel_decimal_display_fmt (prof : Profile) (tm : Mode) (d : Dec) (f : Std.FmtSpec) (hd : Dom d) :
+    Gen.K.decimal_display_fmt prof tm d f = display prof tm f d := Kernels.decimal_display_fmt_eq prof tm d f hd
+/-- end to end: the translated `Display::fmt` produces the specified text for all flags, widths, precisions and thread modes -/
+theorem kernel_display_spec (prof : Profile) (tm : Mode) (f : Std.FmtSpec) (d : Dec) (hd : Dom d) :
+    Gen.K.decimal_display_fmt prof tm d f = .ok (Spec.displaySpec tm f d.coeff d.nfrac) := by
+  rw [Kernels.decimal_display_fmt_eq prof tm d f hd]; exact display_spec prof tm f d hd
 
 end Fpdec.Props.C11
